@@ -2,3 +2,6 @@ pub mod common;
 pub mod request;
 pub mod response;
 mod utils;
+
+#[cfg(all(greatest_ape_aquatic_verif, kani))]
+pub use utils::verif_harness as verif_utils_harness;
